@@ -110,6 +110,7 @@ def stmts_state_removeHandler : List String := [
 def conds_state_appendHandler : List String := [
    "func (*state) appendHandler( opts muxOptions, desc protoreflect.MethodDescriptor, h *handler, ) error",
    "if err := s.path.addRule(implicitRule, desc, h.method); err != nil",
+   "return fmt.Errorf(\"[%s] implicit rule %s: %w\", desc.FullName(), implicitRule.String(), err)",
    "range opts.httprules.getRules(name)",
    "if err := s.path.addRule(rule, desc, h.method); err != nil",
    "return fmt.Errorf(\"[%s] invalid ServiceConfig.http rule %s: %w\", desc.FullName(), rule.String(), err)",
@@ -131,7 +132,7 @@ def stmts_state_appendHandler : List String := [
    "Body: \"*\",",
    "}",
    "if err := s.path.addRule(implicitRule, desc, h.method); err != nil {",
-   "panic(fmt.Sprintf(\"bug: %v\", err))",
+   "return fmt.Errorf(\"[%s] implicit rule %s: %w\", desc.FullName(), implicitRule.String(), err)",
    "}",
    "name := string(desc.FullName())",
    "for _, rule := range opts.httprules.getRules(name) {",
